@@ -4,6 +4,7 @@ import (
 	"fmt"
 	"reflect"
 	"sort"
+	"strconv"
 	"strings"
 
 	"github.com/goplus/xgo/ast"
@@ -96,6 +97,20 @@ func dump(v reflect.Value, field string) *DNode {
 			}
 			d.Kids = append(d.Kids, dump(v.Field(i), f.Name))
 		}
+		if t.Name() == "ImportSpec" {
+			// the printer writes every import path in its canonical spelling (sanitizeImportPath):
+			// compare the path, not its spelling
+			if pv := v.FieldByName("Path"); pv.IsValid() && !pv.IsNil() {
+				val := pv.Elem().FieldByName("Value").String()
+				if u, err := strconv.Unquote(val); err == nil {
+					for _, k := range d.Kids {
+						if strings.HasPrefix(k.Label, "Path:") {
+							k.Label, k.Kids = "Path:"+strconv.Quote(u), nil
+						}
+					}
+				}
+			}
+		}
 		if t.Name() == "GenDecl" && v.FieldByName("Tok").Int() == int64(token.IMPORT) {
 			for _, k := range d.Kids {
 				if strings.HasPrefix(k.Label, "Specs:") {
@@ -149,20 +164,26 @@ func firstDiff(a, b *DNode, parent, path string) (string, string, bool) {
 			field = a.Label[:i]
 		}
 		switch {
-		case la == "ParenExpr" && lb != "ParenExpr":
-			// did the formatter drop a pair of parentheses?
-			if len(a.Kids) == 1 {
-				if _, _, same := firstDiff(relabel(a.Kids[0], b.Label), b, parent, path); same {
-					if bare(a.Kids[0].Label) == "ParenExpr" || parent == "ParenExpr" {
+		case la == "ParenExpr":
+			// did the formatter drop one or more pairs of parentheses?
+			inner, layers := a, 0
+			for bare(inner.Label) == "ParenExpr" && len(inner.Kids) == 1 && inner.Label != relabel(inner, b.Label).Label || (bare(inner.Label) == "ParenExpr" && bare(b.Label) != "ParenExpr" && len(inner.Kids) == 1) {
+				inner = inner.Kids[0]
+				layers++
+				if _, _, same := firstDiff(relabel(inner, b.Label), b, parent, path); same {
+					if layers > 1 || parent == "ParenExpr" {
 						return "redundant-parens-removed:nested", path, false
 					}
 					switch parent {
-					case "IfStmt", "ForStmt", "SwitchStmt", "RangeStmt", "TypeSwitchStmt":
+					case "IfStmt", "ForStmt", "SwitchStmt", "RangeStmt", "TypeSwitchStmt", "ForPhraseStmt", "ForPhrase":
 						return "redundant-parens-removed:control-clause", path, false
 					case "Field":
 						return "redundant-parens-removed:parameter-type", path, false
 					}
 					return "redundant-parens-removed:" + parent + "." + field, path, false
+				}
+				if layers > 4 {
+					break
 				}
 			}
 		case lb == "ParenExpr" && la != "ParenExpr":
@@ -171,6 +192,24 @@ func firstDiff(a, b *DNode, parent, path string) (string, string, bool) {
 		return "tree-differs:" + parent + "." + field + ":" + trunc(la) + "->" + trunc(lb), path, false
 	}
 	if len(a.Kids) != len(b.Kids) {
+		// did the formatter only drop explicit empty statements (`;;`)?
+		var kept []*DNode
+		for _, k := range a.Kids {
+			if bare(k.Label) != "EmptyStmt" {
+				kept = append(kept, k)
+			}
+		}
+		if len(kept) == len(b.Kids) && len(kept) < len(a.Kids) {
+			same := true
+			for i := range kept {
+				if _, _, ok := firstDiff(kept[i], b.Kids[i], la, path); !ok {
+					same = false
+				}
+			}
+			if same {
+				return "empty-statement-removed", path, false
+			}
+		}
 		return "tree-differs:" + la + ":arity", path, false
 	}
 	for i := range a.Kids {
@@ -199,3 +238,192 @@ func trunc(s string) string {
 }
 
 var _ = ast.NewIdent
+
+// ---------------------------------------------------------------------------------------
+// Deliberate normalisations of the printer (inherited from gofmt), applied to BOTH images one
+// after the other; Classify reports the key of every normalisation that was needed to make the
+// images equal (known findings), or the first remaining difference.
+
+func cloneD(d *DNode) *DNode {
+	c := &DNode{Label: d.Label}
+	for _, k := range d.Kids {
+		c.Kids = append(c.Kids, cloneD(k))
+	}
+	return c
+}
+
+func fieldOf(l string) string {
+	if i := strings.IndexByte(l, ':'); i >= 0 && !strings.HasPrefix(l, "\"") {
+		return l[:i]
+	}
+	return ""
+}
+
+func withField(f string, d *DNode) *DNode {
+	c := *d
+	if f != "" {
+		c.Label = f + ":" + bare(d.Label)
+	} else {
+		c.Label = bare(d.Label)
+	}
+	return &c
+}
+
+func stripAllParens(d *DNode) *DNode {
+	f := fieldOf(d.Label)
+	for bare(d.Label) == "ParenExpr" && len(d.Kids) == 1 {
+		d = d.Kids[0]
+	}
+	return withField(f, d)
+}
+
+// normD applies one normalisation kind; changed reports whether anything was rewritten.
+func normD(d *DNode, kind string, changed *bool) *DNode {
+	for i, k := range d.Kids {
+		d.Kids[i] = normD(k, kind, changed)
+	}
+	name := bare(d.Label)
+	switch kind {
+	case "nested":
+		if name == "ParenExpr" && len(d.Kids) == 1 && bare(d.Kids[0].Label) == "ParenExpr" {
+			*changed = true
+			return withField(fieldOf(d.Label), d.Kids[0])
+		}
+	case "control-clause":
+		switch name {
+		case "IfStmt", "ForStmt", "SwitchStmt", "RangeStmt":
+			for i, k := range d.Kids {
+				switch fieldOf(k.Label) {
+				case "Cond", "Tag", "X":
+					if bare(k.Label) == "ParenExpr" {
+						*changed = true
+						d.Kids[i] = stripAllParens(k)
+					}
+				}
+			}
+		}
+	case "parameter-type":
+		if name == "Field" {
+			for i, k := range d.Kids {
+				if fieldOf(k.Label) == "Type" && bare(k.Label) == "ParenExpr" {
+					*changed = true
+					d.Kids[i] = stripAllParens(k)
+				}
+			}
+		}
+	case "empty-statement":
+		if name == "[]" {
+			var kept []*DNode
+			for _, k := range d.Kids {
+				if bare(k.Label) == "EmptyStmt" || emptyShadow(k) {
+					*changed = true
+					continue
+				}
+				kept = append(kept, k)
+			}
+			d.Kids = kept
+		}
+		if name == "EmptyStmt" { // `L: ;` before '}' is printed as `L:` (implicit empty statement)
+			for _, k := range d.Kids {
+				if strings.HasPrefix(k.Label, "Implicit:") && k.Label != "Implicit:_" {
+					k.Label = "Implicit:_"
+				}
+			}
+		}
+	}
+	return d
+}
+
+// emptyShadow: the shadow entry function of top-level statements, with nothing left in it.
+func emptyShadow(d *DNode) bool {
+	if bare(d.Label) != "FuncDecl" {
+		return false
+	}
+	shadow, empty := false, false
+	for _, k := range d.Kids {
+		if k.Label == "Shadow:true" {
+			shadow = true
+		}
+		if k.Label == "Body:BlockStmt" {
+			for _, l := range k.Kids {
+				if l.Label == "List:[]" && len(l.Kids) == 0 {
+					empty = true
+				}
+			}
+		}
+	}
+	return shadow && empty
+}
+
+func leadingEmptyTopLevel(file *DNode) bool {
+	for _, k := range file.Kids {
+		if k.Label != "Decls:[]" {
+			continue
+		}
+		for _, d := range k.Kids {
+			if bare(d.Label) != "FuncDecl" {
+				continue
+			}
+			shadow := false
+			for _, f := range d.Kids {
+				if f.Label == "Shadow:true" {
+					shadow = true
+				}
+			}
+			if !shadow {
+				continue
+			}
+			for _, f := range d.Kids {
+				if f.Label == "Body:BlockStmt" {
+					for _, l := range f.Kids {
+						if l.Label == "List:[]" && len(l.Kids) > 0 && bare(l.Kids[0].Label) == "EmptyStmt" {
+							return true
+						}
+					}
+				}
+			}
+		}
+	}
+	return false
+}
+
+var normKinds = []struct{ kind, key string }{
+	{"nested", "redundant-parens-removed:nested"},
+	{"control-clause", "redundant-parens-removed:control-clause"},
+	{"parameter-type", "redundant-parens-removed:parameter-type"},
+	{"empty-statement", "empty-statement-removed"},
+}
+
+// Classify compares the image a of the source tree with the image b of the re-parsed formatter
+// output.  ok: equal as they are.  Otherwise keys lists what is different: the by-design
+// normalisations that had to be applied to make them equal, and/or the first real difference.
+func Classify(a, b *DNode) (keys []string, path string, ok bool) {
+	if _, _, same := FirstDiff(a, b); same {
+		return nil, "", true
+	}
+	a0 := a
+	a, b = cloneD(a), cloneD(b)
+	for _, nk := range normKinds {
+		ca, cb := false, false
+		a = normD(a, nk.kind, &ca)
+		b = normD(b, nk.kind, &cb)
+		as, bs := a.String(), b.String()
+		if ca && !cb || ca && cb && nk.kind == "empty-statement" {
+			keys = append(keys, nk.key)
+		}
+		if as == bs {
+			if len(keys) == 0 {
+				keys = append(keys, nk.key)
+			}
+			return keys, "", false
+		}
+	}
+	if leadingEmptyTopLevel(a0) {
+		// `;` as the first top-level statement opens the shadow entry; once the formatter has
+		// dropped it, the declarations that followed are ordinary top-level declarations again
+		return []string{"empty-statement-removed:leading-top-level"}, "", false
+	}
+	k, p, _ := FirstDiff(a, b)
+	// the by-design keys are only reported when they explain the whole difference
+	return []string{k}, p, false
+}
